@@ -18,6 +18,10 @@ import (
 type FillEntry struct {
 	Path string `json:"path"` // dotted Go names of the leaf in the config type
 	Seed uint64 `json:"seed"`
+	// Empty: write the empty value instead of the seeded one where the leaf
+	// has one that its text form can spell: "" for a (pointer to a) string,
+	// a non-nil empty slice / map / set (text "") for collections.
+	Empty bool `json:"empty,omitempty"`
 }
 
 // Case is one input of the C10 checks.
@@ -471,7 +475,7 @@ func genCase(t *rapid.T, random bool) Case {
 		// at least one leaf is written
 		if len(fillable) > 0 {
 			ol := fillable[rapid.IntRange(0, len(fillable)-1).Draw(t, "single_fill")]
-			c.Fill = append(c.Fill, FillEntry{Path: ol.path, Seed: rapid.Uint64Range(1, 1<<40).Draw(t, "seed")})
+			c.Fill = append(c.Fill, FillEntry{Path: ol.path, Seed: rapid.Uint64Range(1, 1<<40).Draw(t, "seed"), Empty: chance(t, "empty_value", 3)})
 		}
 		if pct == -1 {
 			pct = 0
@@ -486,7 +490,7 @@ func genCase(t *rapid.T, random bool) Case {
 			continue
 		}
 		if chance(t, "fill", pct) {
-			c.Fill = append(c.Fill, FillEntry{Path: ol.path, Seed: rapid.Uint64Range(1, 1<<40).Draw(t, "seed")})
+			c.Fill = append(c.Fill, FillEntry{Path: ol.path, Seed: rapid.Uint64Range(1, 1<<40).Draw(t, "seed"), Empty: chance(t, "empty_value", 3)})
 		}
 	}
 	c.DupSets = rapid.Bool().Draw(t, "dup_sets")
